@@ -57,7 +57,8 @@ def strategy(tier, phase):
                       st.lists(st.integers(-1, 20), max_size=2)).map(list)
     mode_b = st.fixed_dictionaries({"mode": st.just("b"), "nodes": st.lists(bnode, min_size=1, max_size=10),
                                     "gin": st.lists(small, max_size=3), "ginit": st.lists(small, max_size=3),
-                                    "fn": st.lists(bnode, min_size=0, max_size=4), "fin": st.lists(small, max_size=2)})
+                                    "fn": st.lists(bnode, min_size=0, max_size=4), "fin": st.lists(small, max_size=2),
+                                    "again": st.one_of(st.just([]), st.lists(st.tuples(st.integers(0, 40), st.integers(0, 40)).map(list), min_size=1, max_size=3))})
     # mode c
     mode_c = st.fixed_dictionaries({"mode": st.just("c"), "vals": st.lists(st.integers(0, 30), min_size=1, max_size=6),
                                     "names": st.lists(st.integers(0, 12), min_size=1, max_size=6), "kind": st.integers(0, 3),
@@ -354,79 +355,111 @@ def run_b(case):
             for n in g:
                 orig.setdefault(id(n), (n, n.name))
     interesting = False
+    fix = NameFixPass()
     try:
-        res = NameFixPass()(model)
+        res = fix(model)
     except Exception as e:
         import traceback
 
         tb = traceback.extract_tb(e.__traceback__)
         where = [f.name for f in tb if "onnx_ir" in f.filename][-1:] or ["?"]
         return [(f"b-raised/{type(e).__name__}@{where[0]}", f"NameFixPass raised {type(e).__name__}: {e}"[:300] + f" | case {case}"[:300])], True, ["mode_b"]
-    for graphs, gp, ngr in families:
-        def anc(gi):
-            out = []
-            while gp[gi] is not None:
-                gi = ngr[gp[gi]]
-                out.append(gi)
-            return out
 
-        def desc(gi):
-            return [k for k in range(len(graphs)) if gi in anc(k)]
+    def judge(orig, struct_before, pre):
+        nonlocal interesting
+        for graphs, gp, ngr in families:
+            def anc(gi):
+                out = []
+                while gp[gi] is not None:
+                    gi = ngr[gp[gi]]
+                    out.append(gi)
+                return out
 
-        defined = [graph_values(g) for g in graphs]
-        for gi, g in enumerate(graphs):
-            vals = defined[gi]
-            names = [v.name for v in vals]
-            for v in vals + list(g.outputs):
-                if not v.name:
-                    fails.append(("b-empty-value-name", f"value without name after the pass in {g.name}"))
-            dup = {x for x in names if names.count(x) > 1}
-            if dup:
-                fails.append(("b-duplicate-in-graph", f"graph {g.name} has duplicate value names {sorted(map(str, dup))}"))
-            for a in anc(gi):
-                outer = {v.name for v in defined[a]}
-                clash = [nm for nm in names if nm in outer]
-                if clash:
-                    fails.append(("b-shadows-outer", f"graph {g.name} value names {clash} also name values of enclosing graph {graphs[a].name}"))
-            nn = [n.name for n in g]
-            if any(not x for x in nn):
-                fails.append(("b-empty-node-name", f"node without name in {g.name}"))
-            dn = {x for x in nn if nn.count(x) > 1}
-            if dn:
-                fails.append(("b-duplicate-node-name", f"graph {g.name} duplicate node names {sorted(map(str, dn))}"))
-            for k, v in g.initializers.items():
-                if v.name != k:
-                    fails.append(("b-init-key", f"initializer key {k!r} vs name {v.name!r}"))
-            # kept-if-unique
-            related = [gi] + anc(gi) + desc(gi)
-            for v in vals:
-                o = orig[id(v)][1]
-                if not o:
-                    interesting = interesting or gi > 0 or graphs is not main[0]
-                    continue
-                others = [orig[id(x)][1] for r in related for x in defined[r] if x is not v]
-                if o in others:
-                    interesting = interesting or gi > 0 or graphs is not main[0]
-                    continue
-                if v.name != o:
-                    fails.append(("b-unique-name-not-kept/value", f"value originally {o!r} (unique along its scope chain) was renamed to {v.name!r} in {g.name}"))
-            for n in g:
-                o = orig[id(n)][1]
-                if not o:
-                    continue
-                others = [orig[id(x)][1] for x in g if x is not n]
-                if o in others:
-                    continue
-                if n.name != o:
-                    fails.append(("b-unique-name-not-kept/node", f"node originally {o!r} (unique in its graph) was renamed to {n.name!r}"))
-    if _struct(families) != struct_before:
-        fails.append(("b-structure-changed", "something other than names changed"))
+            def desc(gi):
+                return [k for k in range(len(graphs)) if gi in anc(k)]
+
+            defined = [graph_values(g) for g in graphs]
+            for gi, g in enumerate(graphs):
+                vals = defined[gi]
+                names = [v.name for v in vals]
+                for v in vals + list(g.outputs):
+                    if not v.name:
+                        fails.append((pre + "-empty-value-name", f"value without name after the pass in {g.name}"))
+                dup = {x for x in names if names.count(x) > 1}
+                if dup:
+                    fails.append((pre + "-duplicate-in-graph", f"graph {g.name} has duplicate value names {sorted(map(str, dup))}"))
+                for a in anc(gi):
+                    outer = {v.name for v in defined[a]}
+                    clash = [nm for nm in names if nm in outer]
+                    if clash:
+                        fails.append((pre + "-shadows-outer", f"graph {g.name} value names {clash} also name values of enclosing graph {graphs[a].name}"))
+                nn = [n.name for n in g]
+                if any(not x for x in nn):
+                    fails.append((pre + "-empty-node-name", f"node without name in {g.name}"))
+                dn = {x for x in nn if nn.count(x) > 1}
+                if dn:
+                    fails.append((pre + "-duplicate-node-name", f"graph {g.name} duplicate node names {sorted(map(str, dn))}"))
+                for k, v in g.initializers.items():
+                    if v.name != k:
+                        fails.append((pre + "-init-key", f"initializer key {k!r} vs name {v.name!r}"))
+                # kept-if-unique
+                related = [gi] + anc(gi) + desc(gi)
+                for v in vals:
+                    o = orig[id(v)][1]
+                    if not o:
+                        interesting = interesting or gi > 0 or graphs is not main[0]
+                        continue
+                    others = [orig[id(x)][1] for r in related for x in defined[r] if x is not v]
+                    if o in others:
+                        interesting = interesting or gi > 0 or graphs is not main[0]
+                        continue
+                    if v.name != o:
+                        fails.append((pre + "-unique-name-not-kept/value", f"value originally {o!r} (unique along its scope chain) was renamed to {v.name!r} in {g.name}"))
+                for n in g:
+                    o = orig[id(n)][1]
+                    if not o:
+                        continue
+                    others = [orig[id(x)][1] for x in g if x is not n]
+                    if o in others:
+                        continue
+                    if n.name != o:
+                        fails.append((pre + "-unique-name-not-kept/node", f"node originally {o!r} (unique in its graph) was renamed to {n.name!r}"))
+        if _struct(families) != struct_before:
+            fails.append((pre + "-structure-changed", "something other than names changed"))
+
+    judge(orig, struct_before, "b")
+    classes_b = ["mode_b"]
+    again = case.get("again") or []
+    if again and not fails:
+        # the same pass OBJECT is applied a second time after names were disturbed again (a pass kept in a pipeline)
+        allv = [v for graphs, gp, ngr in families for g in graphs for v in graph_values(g) if not v.is_initializer()]
+        alln = [n for graphs, gp, ngr in families for g in graphs for n in g]
+        for a_, b_ in again:
+            if allv and a_ % 3 != 2:
+                tgt, src = allv[a_ % len(allv)], allv[b_ % len(allv)]
+                tgt.name = src.name if a_ % 3 == 0 else None
+            elif alln:
+                alln[a_ % len(alln)].name = alln[b_ % len(alln)].name
+        orig2 = {}
+        for graphs, gp, ngr in families:
+            for g in graphs:
+                for v in graph_values(g) + list(g.outputs):
+                    orig2.setdefault(id(v), (v, v.name))
+                for n in g:
+                    orig2.setdefault(id(n), (n, n.name))
+        struct2 = _struct(families)
+        try:
+            fix(model)
+            judge(orig2, struct2, "b-second-run")
+        except Exception as e:
+            fails.append((f"b-second-run-raised/{type(e).__name__}", f"second application of the same NameFixPass object raised {type(e).__name__}: {e}"[:300]))
+        classes_b.append("same_pass_object_applied_twice")
     seen, out = set(), []
     for b, m in fails:
         if b not in seen:
             seen.add(b)
             out.append((b, m + f" | case {case}"[:400]))
-    return out, interesting, ["mode_b"] + (["nested_or_function_dup"] if interesting else [])
+    return out, interesting, classes_b + (["nested_or_function_dup"] if interesting else [])
 
 
 def _struct(families):
@@ -462,6 +495,10 @@ def run_c(case):
         v = ir.Value(name=nm, const_value=u.tensor(k))
         (g0 if k < 2 else g1).initializers.add(v)
         extra.append(v)
+    # an initializer entry whose tensor is not attached yet (data bound later): legal in the IR
+    pend = ir.Value(name="pend", type=ir.TensorType(ir.DataType.FLOAT), shape=ir.Shape([2]))
+    g0.initializers.add(pend)
+    extra.append(pend)
     u.sweep()
     for kind, vi in case.get("pre", []):
         v = u.V(vi)
